@@ -66,7 +66,9 @@ def fields(tok):
         nxt = seps[i] if i < len(seps) else ""
         prv = seps[i - 1] if i > 0 else ""
         prev_val = vals[i - 1] if i > 0 else ""
-        if nxt == "," or prv == ",":
+        if prv == ":" and prev_val == "W":
+            cls = "word"        # payload of the non-commutative word type: owned like a float payload, compared exactly
+        elif nxt == "," or prv == ",":
             cls = "unit"
         elif nxt == "@" and re.match(r"^-?\d+$", v):
             cls = "time"
@@ -132,7 +134,9 @@ def compare_lines(impl, model, mask, tol=None, value_eq=False):
             for (c, x), (_, y) in zip(fa, fb):
                 if x == y:
                     continue
-                if c not in mask:
+                if c == "word":
+                    w = "hard" if "float" in mask else "drift"
+                elif c not in mask:
                     w = "drift"
                 elif c == "float":
                     if value_eq and float_close(x, y, 0.0, 0.0):
